@@ -26,129 +26,129 @@ PROPS = {
     'C01': dict(
         title='bounded queue: exactly once, FIFO, exclusive published access',
         quick=[mc('mc_queue', 'all', 'sc', P=2, E=0, budget=150), mc('mc_queue', 'all', 'tso', P=1, D=1, E=1, budget=150), sq('sq_queue', ['--depth', '7'], budget=100)],
-        thorough=[mc('mc_queue', 'all', 'sc', P=3, E=1, budget=900), mc('mc_queue', 'all', 'tso', P=2, D=2, E=1, budget=900), sq('sq_queue', ['--depth', '10'], budget=600)],
+        thorough=[mc('mc_queue', 'all', 'sc', P=3, E=1, budget=400), mc('mc_queue', 'all', 'tso', P=2, D=2, E=1, budget=400), sq('sq_queue', ['--depth', '10'], budget=300)],
         oracle='multiset conservation, FIFO for ordered operations, try_ results, HB race detector on slot payload, torn-element check; sequential half (sq_queue): every sequence of the 12 non-blocking / non-blocked operations vs std::deque for capacities 1/2/4, with macro operations that really pass 32766/32767 laps through the queue (16-bit version wrap inside the histories); the fast_forward() short cut used by the concurrent programs that start just before the wrap is compared field by field with the really reached state',
     ),
     'C02': dict(
         title='bounded queue: no lost wake-up, timed pop',
-        quick=[mc('mc_queue', '18-19,27-34,38-42,46-47', 'tso', P=2, D=1, E=1, budget=150)],
-        thorough=[mc('mc_queue', '18-19,27-34,38-42,46-47', 'tso', P=3, D=2, E=1, budget=1200), mc('mc_queue', '0-9,16-17', 'tso', P=2, D=2, E=1, budget=600)],
+        quick=[mc('mc_queue', '18-19,27-34,38-42,46-47', 'tso', P=2, D=1, E=1, budget=250)],
+        thorough=[mc('mc_queue', '18-19,27-34,38-42,46-47', 'tso', P=3, D=2, E=1, budget=400), mc('mc_queue', '0-9,16-17', 'tso', P=2, D=2, E=1, budget=400)],
         oracle='deadlock / livelock detector of the owning scheduler (every blocking call returns), timed pop bounded by its deadline on the virtual clock',
     ),
     'C18': dict(
         title='hash set/map vs reference after any history',
         quick=[sq('sq_hash', ['--depth', '4'], budget=200)],
-        thorough=[sq('sq_hash', ['--depth', '6'], budget=1500)],
+        thorough=[sq('sq_hash', ['--depth', '6'], budget=300)],
         oracle='after every operation: size(), full iteration (each element once), find/contains/count for every key of the universe, mapped values = first inserted, all equal std::unordered_* driven by the same operations; ASan+UBSan',
         assumptions=['operation alphabet and key universe as listed in harness/sq_hash.cpp (macro operations cross the 16/32/64 table sizes); histories up to the stated depth; deterministic harness hash function'],
     ),
     'C06': dict(
         title='monotonic resources: blocks disjoint, aligned, stable; release frees all once',
         quick=[sq('sq_mres', ['--depth', '4'], budget=200), mc('mc_mres', '0,3,4,5', 'sc', P=2, budget=150), mc('mc_mres', '1,2', 'sc', P=1, budget=150)],
-        thorough=[sq('sq_mres', ['--depth', '6'], budget=1500), mc('mc_mres', 'all', 'sc', P=3, budget=1500), mc('mc_mres', 'all', 'tso', P=1, D=1, budget=600)],
+        thorough=[sq('sq_mres', ['--depth', '6'], budget=300), mc('mc_mres', 'all', 'sc', P=3, budget=400), mc('mc_mres', 'all', 'tso', P=1, D=1, budget=400)],
         oracle='interval map of live blocks (aligned, inside owned memory, pairwise disjoint, disjoint from page/oversize/destroy-task arrays read from the private fields), unique fill pattern per block re-checked at every step, recording page allocator and recording upstreams (each page/oversize block returned exactly once, to where it came from, with the same bytes/alignment), destructor order, accounting; babylon\'s own ASan poisoning active; concurrent half (mc_mres): blocks handed to different threads (and to successive threads reusing a thread-local slot) are aligned, inside pages / oversize blocks the resource currently owns, pairwise disjoint and keep their fill pattern until release(); release() runs each registered destructor once and returns each page / oversize block exactly once; accounting; concurrent protobuf Arena conversion yields one arena',
         assumptions=['page sizes 256/512/4096; request alphabet around the page size and the 15-entry in-page arrays as listed in harness/sq_mres.cpp'],
     ),
     'C12': dict(
         title='reusable containers match std behaviour; clearing keeps capacity for reuse',
         quick=[sq('sq_rvec', ['--depth', '4'], budget=300)],
-        thorough=[sq('sq_rvec', ['--depth', '5'], budget=1500)],
+        thorough=[sq('sq_rvec', ['--depth', '5'], budget=300)],
         oracle='element-wise equality with std::vector/std::string after every operation, size <= constructed_size <= capacity, capacity never shrinks under logical clear, accessor validity and zero growth of space_allocated() for converged workloads under ReusableManager; ASan+UBSan',
         assumptions=['element types int, SwissString, nested SwissVector<int>; positions begin/middle/end; value alphabet of three values; aliasing-argument calls are explored in their own system'],
     ),
     'C08': dict(
         title='future / promise / latch: value reaches every waiter and callback exactly once',
         quick=[mc('mc_future', 'all', 'sc', P=2, E=1, budget=120), mc('mc_future', 'all', 'tso', P=1, D=1, E=1, budget=120)],
-        thorough=[mc('mc_future', 'all', 'sc', P=3, E=1, budget=900), mc('mc_future', 'all', 'tso', P=2, D=2, E=1, budget=900)],
+        thorough=[mc('mc_future', 'all', 'sc', P=3, E=1, budget=400), mc('mc_future', 'all', 'tso', P=2, D=2, E=1, budget=400)],
         oracle='callback counters exactly 1 with the value that was set and never before set_value began; get() returns the value; wait_for true => ready, false => virtual elapsed time >= timeout; every waiter returns (deadlock detector); latch ready exactly at zero; HB race detector on the stored value',
     ),
     'C14': dict(
         title='id allocator / thread ids / deposit box',
         quick=[mc('mc_ids', 'all', 'sc', P=2, E=1, budget=150), sq('sq_ids', ['--depth', '12'], budget=100)],
-        thorough=[mc('mc_ids', 'all', 'sc', P=3, E=1, budget=900), mc('mc_ids', 'all', 'tso', P=2, D=1, E=0, budget=900), sq('sq_ids', ['--depth', '18'], budget=600)],
+        thorough=[mc('mc_ids', 'all', 'sc', P=3, E=1, budget=400), mc('mc_ids', 'all', 'tso', P=2, D=1, E=0, budget=400), sq('sq_ids', ['--depth', '18'], budget=300)],
         oracle='harness ownership map (no value held twice), quiescent reuse and for_each = live set, thread ids unique while live and recycled after death, exactly one taker per deposit id, stale ids never match after slot reuse; sequential half (sq_ids): every allocate/free history (5 held values) and every emplace/take/take_released/finish_released history over 5 issued ids vs a reference model: reuse instead of minting, end(), for_each = live set, take succeeds iff the id is live and returns its own item',
     ),
     'C16': dict(
         title='execution queue: items consumed once, one consumer at a time, none stranded',
         quick=[mc('mc_execq', 'all', 'sc', P=2, E=2, budget=150), mc('mc_execq', '0-5', 'tso', P=1, D=1, E=0, budget=100)],
-        thorough=[mc('mc_execq', 'all', 'sc', P=3, E=2, budget=1200), mc('mc_execq', 'all', 'tso', P=2, D=1, E=2, budget=900)],
+        thorough=[mc('mc_execq', 'all', 'sc', P=3, E=2, budget=400), mc('mc_execq', 'all', 'tso', P=2, D=1, E=2, budget=400)],
         oracle='every item consumed exactly once and per producer in order; consume function never concurrent (plain flag under the HB race detector); join() returns, and only after everything was consumed; after refused launches (fault choices, E) the next accepted signal drains everything',
     ),
     'C09': dict(
         title='epoch: nothing becomes reclaimable while a reader that may see it is in a region',
-        quick=[mc('mc_epoch', '0,2,3,5,7,8', 'tso', P=2, D=2, E=0, budget=100), mc('mc_epoch', '1,4,6', 'tso', P=2, D=1, E=0, budget=150), mc('mc_epoch', 'all', 'sc', P=2, budget=100)],
-        thorough=[mc('mc_epoch', 'all', 'tso', P=2, D=2, E=0, budget=1500), mc('mc_epoch', 'all', 'sc', P=3, budget=600), mc('mc_epoch', '0,2,3,5,7,8', 'tso', P=3, D=2, E=0, budget=600)],
+        quick=[mc('mc_epoch', '0,2,3,5,7,8', 'tso', P=2, D=2, E=0, budget=150), mc('mc_epoch', '1,4,6', 'tso', P=2, D=1, E=0, budget=250), mc('mc_epoch', 'all', 'sc', P=2, budget=100)],
+        thorough=[mc('mc_epoch', 'all', 'tso', P=2, D=2, E=0, budget=400), mc('mc_epoch', 'all', 'sc', P=3, budget=400), mc('mc_epoch', '0,2,3,5,7,8', 'tso', P=3, D=2, E=0, budget=400)],
         oracle='writer protocol of GarbageCollector (unlink, tick, reclaim iff low_water_mark() >= tick); reclaim poisons + deletes: a reader inside its region touching a reclaimed object trips the freed-memory oracle and an explicit flag; after all regions closed low_water_mark() == UINT64_MAX',
         assumptions=['tick() weakened to relaxed would still be a locked instruction on x86 and is not observable under TSO (DESIGN section 7)'],
     ),
     'C10': dict(
         title='garbage collector: reclaimers run exactly once, never early, before stop returns',
-        quick=[mc('mc_gc', '0,1,3,4,5,6,7', 'sc', P=2, E=0, budget=150), mc('mc_gc', '2', 'sc', P=1, E=0, budget=60)],
-        thorough=[mc('mc_gc', 'all', 'sc', P=2, E=1, budget=1500), mc('mc_gc', '0,1,3,4,6,7', 'sc', P=3, E=0, budget=900), mc('mc_gc', '0,1', 'tso', P=2, D=1, budget=600)],
+        quick=[mc('mc_gc', '0,1,3,4,5,6,7', 'sc', P=2, E=0, budget=300), mc('mc_gc', '2', 'sc', P=1, E=0, budget=60)],
+        thorough=[mc('mc_gc', 'all', 'sc', P=2, E=1, budget=400), mc('mc_gc', '0,1,3,4,6,7', 'sc', P=3, E=0, budget=400), mc('mc_gc', '0,1', 'tso', P=2, D=1, budget=400)],
         oracle='per reclaimer: invoked exactly once when stop()/the destructor returned, never while a region that was open at its retirement is still open, never destroyed uninvoked; retire blocks on a full queue and resumes (deadlock detector)',
     ),
     'C15': dict(
         title='transient topic: each subscriber sees every item once, in order, then the end',
-        quick=[mc('mc_topic', 'all', 'sc', P=2, E=0, budget=100), mc('mc_topic', '0,1,3,4,6,7', 'tso', P=2, D=1, E=1, budget=120), mc('mc_topic', '2,5', 'tso', P=1, D=1, E=0, budget=120)],
-        thorough=[mc('mc_topic', 'all', 'sc', P=3, E=1, budget=900), mc('mc_topic', '0,1,3,4,6,7', 'tso', P=3, D=2, E=1, budget=1500), mc('mc_topic', '2,5', 'tso', P=2, D=1, E=1, budget=900)],
+        quick=[mc('mc_topic', 'all', 'sc', P=2, E=0, budget=100), mc('mc_topic', '0,1,3,4,6,7', 'tso', P=2, D=1, E=1, budget=120), mc('mc_topic', '2,5', 'tso', P=1, D=1, E=0, budget=300)],
+        thorough=[mc('mc_topic', 'all', 'sc', P=3, E=1, budget=400), mc('mc_topic', '0,1,3,4,6,7', 'tso', P=3, D=2, E=1, budget=400), mc('mc_topic', '2,5', 'tso', P=2, D=1, E=1, budget=400)],
         oracle='every consumer receives exactly the published items in publication-index order (per-publisher order for concurrent publishers), payload complete (checksum + HB race detector on the slot values), blocks instead of returning short before close, end marker after close, no lost wake-up (deadlock detector), same again after clear()',
     ),
     'C03': dict(
         title='concurrent hash set/map: linearizable insert-if-absent, one winner per key',
         quick=[mc('mc_hash', 'all', 'sc', P=2, E=1, budget=200), mc('mc_hash', '0,1,3,4,8,9', 'tso', P=1, D=1, E=0, budget=100)],
-        thorough=[mc('mc_hash', 'all', 'sc', P=3, E=1, budget=1500), mc('mc_hash', 'all', 'tso', P=2, D=1, E=0, budget=900)],
+        thorough=[mc('mc_hash', 'all', 'sc', P=3, E=1, budget=400), mc('mc_hash', 'all', 'tso', P=2, D=1, E=0, budget=400)],
         oracle='per key: exactly one successful insertion, all calls return the same element address, lookups starting after an insertion returned hit (logical stamps), elements fully constructed when visible (value check + HB race detector over the value array), full fixed table rejects without consuming a move-only argument, contents/size/iteration at quiescence',
         assumptions=['harness hash function places keys in chosen groups with chosen 7-bit tags (collisions, equal tags, group wrapping the table end)'],
     ),
     'C04': dict(
         title='concurrent vector: stable addresses, one element per index, built/destroyed once',
         quick=[mc('mc_vector', 'all', 'sc', P=2, E=0, budget=200)],
-        thorough=[mc('mc_vector', 'all', 'sc', P=3, E=1, budget=1500), mc('mc_vector', '0,1,2,3', 'tso', P=2, D=1, E=0, budget=600)],
+        thorough=[mc('mc_vector', 'all', 'sc', P=3, E=1, budget=400), mc('mc_vector', '0,1,2,3', 'tso', P=2, D=1, E=0, budget=400)],
         oracle='one address per index across threads and over time; per-address construction/destruction counters (exactly once, losers\' speculative blocks destroyed once and never visible); snapshots read through superseded block tables: the freed-memory oracle + virtual clock flag any table freed < 64 s after the growth that superseded it (clock scripts: +0, +63 s, +64 s across the 16-bit wrap, +130 s while a retire is stalled); HB race detector on elements',
     ),
     'C17': dict(
         title='page allocators / object pool: resources conserved, never shared, never lost',
         quick=[mc('mc_pages', 'all', 'sc', P=2, E=0, budget=200), sq('sq_pages', ['--depth', '12'], budget=100)],
-        thorough=[mc('mc_pages', 'all', 'sc', P=3, E=1, budget=1500), mc('mc_pages', '0-4,7,8', 'tso', P=2, D=1, E=0, budget=900), sq('sq_pages', ['--depth', '16'], budget=600)],
+        thorough=[mc('mc_pages', 'all', 'sc', P=3, E=1, budget=400), mc('mc_pages', '0-4,7,8', 'tso', P=2, D=1, E=0, budget=400), sq('sq_pages', ['--depth', '16'], budget=300)],
         oracle='ownership map over a recording upstream whose pages are never reused: nothing handed out that another caller holds or that was already returned upstream, nothing returned twice or while held; at quiescence obtained - returned = held + cached; destruction returns the cache; strict pool: outstanding <= injected and blocked pops resume (deadlock detector); auto pool: recycler once per return, overflow destroyed, nothing leaked; sequential half (sq_pages): every allocate/deallocate history (batches of 1-3, up to 6 held pages) on cached (capacity 1/2/4), batch (2/3/default) and counting-over-cached allocators and every pop/try_pop/drop/push history on strict and auto-creating pools: conservation after every step, nothing handed out twice or after return, destruction returns exactly the cache',
     ),
     'C19': dict(
         title='counters / enumerable thread locals: aggregates exact across thread and instance churn',
         quick=[mc('mc_counter', 'all', 'sc', P=2, E=0, budget=150)],
-        thorough=[mc('mc_counter', 'all', 'sc', P=3, E=1, budget=900), mc('mc_counter', '0,2,7', 'tso', P=2, D=1, E=0, budget=600)],
+        thorough=[mc('mc_counter', 'all', 'sc', P=3, E=1, budget=400), mc('mc_counter', '0,2,7', 'tso', P=2, D=1, E=0, budget=400)],
         oracle='exact sum / sum+count / extreme at every quiescent read over generations of threads (slot reuse) and generations of counter instances (storage reuse, moves); values chosen from {min,-1,0,1,max}; local() identity and privacy; for_each covers every slot ever used, for_each_alive exactly the live ones (both overloads); concurrent read bounded by completed-before / started-before contributions',
         assumptions=['histories of thread births/deaths and instance create/destroy/move are enumerated through data choices (bbmc::choose) up to 4 steps'],
     ),
     'C07': dict(
         title='executors: an accepted task runs exactly once; stop() drains submitted work',
         quick=[mc('mc_exec', '0,2,3,4,6,7,8', 'sc', P=1, E=1, budget=150), mc('mc_exec', '1,5,10', 'sc', P=1, E=0, budget=150)],
-        thorough=[mc('mc_exec', 'all', 'sc', P=2, E=1, budget=2400), mc('mc_exec', '0,2,4', 'tso', P=1, D=1, E=0, budget=600)],
+        thorough=[mc('mc_exec', 'all', 'sc', P=2, E=1, budget=400), mc('mc_exec', '0,2,4', 'tso', P=1, D=1, E=0, budget=400)],
         oracle='run counter per accepted task exactly 1, is_running_in() true inside tasks and children, futures ready with the result when stop()/join() returns, children spawned into local queues finished before stop() returns, refused submissions (fault choices) never run and yield invalid futures, no deadlock with full queues',
     ),
     'C13': dict(
         title='coroutines: each suspension resumed exactly once, on its executor, right result',
         quick=[mc('mc_coro', 'all', 'sc', P=2, E=1, budget=150), mc('mc_coro', '0,1,2,4,5,6,9,10,11', 'tso', P=1, D=1, E=0, budget=100)],
-        thorough=[mc('mc_coro', 'all', 'sc', P=3, E=1, budget=1500), mc('mc_coro', 'all', 'tso', P=2, D=1, E=0, budget=900)],
+        thorough=[mc('mc_coro', 'all', 'sc', P=3, E=1, budget=400), mc('mc_coro', 'all', 'tso', P=2, D=1, E=0, budget=400)],
         oracle='per suspension a resume counter that must be exactly 1 at the end (0 = left suspended, 2 = double resume, also caught by the freed-frame oracle), resumption observed inside the bound executor, awaited value / empty optional iff the cancel call returned true, wake_one/wake_all return values vs coroutines actually resumed, DepositBox slots ever allocated <= simultaneously pending waits, HB race detector on the recycled per-wait nodes',
     ),
     'C20': dict(
         title='logging: each committed entry written once, intact, in order; pages returned',
         quick=[sq('sq_log', ['--depth', '7'], budget=150), mc('mc_log', '0-4,6,7', 'sc', P=2, E=0, budget=150), mc('mc_log', '5', 'sc', P=1, E=0, budget=100)],
-        thorough=[sq('sq_log', ['--depth', '10'], budget=900), mc('mc_log', 'all', 'sc', P=3, E=0, budget=1800), mc('mc_log', '0-4', 'tso', P=2, D=1, E=0, budget=600)],
+        thorough=[sq('sq_log', ['--depth', '10'], budget=300), mc('mc_log', 'all', 'sc', P=3, E=0, budget=400), mc('mc_log', '0-4', 'tso', P=2, D=1, E=0, budget=400)],
         oracle='scatter list rebuilt from the size alone = bytes streamed, every backing page (data and page-table pages) listed exactly once, allocator balance zero after discard / after the writer thread wrote; captured writev() bytes per (fake) descriptor = interleaving of whole entries, each once, per thread in program order; nothing pending after close(); rotated descriptor closed once',
         assumptions=['page sizes 64/128/256 (page tables of 7/15/31 pointers); writev never returns short (the property does not quantify over short writes)'],
     ),
     'C05': dict(
         title='anyflow: a run equals sequential demand-driven evaluation; each vertex runs at most once',
-        quick=[mc('mc_anyflow', '0-20,23-24', 'sc', P=2, budget=200), mc('mc_anyflow', '21', 'sc', P=0, budget=200), mc('mc_anyflow', '1-14,23-24', 'tso', P=1, D=1, budget=200)],
-        thorough=[mc('mc_anyflow', '0-20,23-25', 'sc', P=3, budget=2400), mc('mc_anyflow', '1-14,23-24', 'tso', P=2, D=1, budget=1200), mc('mc_anyflow', '21', 'sc', P=0, budget=300), mc('mc_anyflow', '22', 'sc', P=1, budget=1200)],
+        quick=[mc('mc_anyflow', '0-20,23-24', 'sc', P=2, budget=300), mc('mc_anyflow', '21', 'sc', P=0, budget=200), mc('mc_anyflow', '1-14,23-24', 'tso', P=1, D=1, budget=300)],
+        thorough=[mc('mc_anyflow', '0-20,23-25', 'sc', P=3, budget=400), mc('mc_anyflow', '1-14,23-24', 'tso', P=2, D=1, budget=400), mc('mc_anyflow', '21', 'sc', P=0, budget=400), mc('mc_anyflow', '22', 'sc', P=1, budget=400)],
         oracle='sequential demand-driven reference interpreter written in the harness: closure finished, success/failure and error code, every target value, every data (ready/empty/value), the exact set of processors run (each at most once, only needed ones), the inputs each processor saw, dependency verdict (condition ready; target ready iff condition holds) at invocation, started==finished for every vertex when wait() returns, second run after reset(); HB race detector on data payload and dependency verdicts; deadlock detector',
         assumptions=['curated graphs (diamond, on/unless, punch-through, essential, trivial, nested conditions, missing/empty/injected inputs, failing vertex, target subsets) under an inplace executor, a thread-per-vertex executor and ThreadPoolGraphExecutor with 1-2 workers; plus the generated family: all dependency shapes of a 3-vertex graph over a 4-name pool (141120 structures x 4 input valuations)', 'the Closure object outlives every external emit into the graph (an emit into a graph whose closure was destroyed is outside the harness)', 'GraphDependency::_established is not under the race detector: two threads may store the same value true to it without ordering (benign same-value write; reported in DESIGN.md)'],
     ),
     'C11': dict(
         title='serialization: round trip, exact size, protobuf wire compat, hostile-input safe',
         quick=[sq('sq_ser', ['--full-len', '2', '--reduced-len', '4'], budget=150), sq('sq_ser_dbg', ['--full-len', '2', '--reduced-len', '4'], budget=150)],
-        thorough=[sq('sq_ser', ['--full-len', '2', '--reduced-len', '6'], budget=2400), sq('sq_ser_dbg', ['--full-len', '2', '--reduced-len', '5'], budget=900)],
+        thorough=[sq('sq_ser', ['--full-len', '2', '--reduced-len', '6'], budget=300), sq('sq_ser_dbg', ['--full-len', '2', '--reduced-len', '5'], budget=300)],
         oracle='for every value of the alphabets: predicted size = bytes produced, parse through 10 presentations (string, array, chunked coded streams 1/2/3/7 bytes with and without an enclosing limit) = value (smart pointer to an empty encoding reads back null); protobuf TestMessage vs BABYLON_COMPATIBLE mirror both directions, all 24 field orders, unknown fields of every wire type at every position, absent fields keep values; ALL byte strings up to the bound into 15 target types under ASan+UBSan: no report, and accepted values serialise, parse back equal, second round is a fixed point',
         assumptions=['byte strings: every string of length <= 2 over all 256 byte values and every string up to the stated length over a 16-byte schema alphabet (tags of fields 1-4 with all wire types, length bytes inside/at/past the end, continuation bytes)', 'NDEBUG and debug (wire-type checking) builds are both run', 'UBSan checks null and nonnull-attribute are off: babylon binds a reference to a null table in a default iterator and passes (nullptr, 0) to memcpy through protobuf, both benign'],
     ),
@@ -170,9 +170,7 @@ def build(targets):
 
 def expand_configs(spec, binary):
     """'all' | 'a-b,c,d-e' -> list of (lo,hi) ranges"""
-    if spec == 'all':
-        return ['all']
-    return spec.split(',')
+    return [spec]   # the driver takes 'all' or a comma separated list of numbers / ranges and shares the budget fairly
 
 
 def load_known():
@@ -231,6 +229,9 @@ def run_property(prop, tier):
                 except Exception as e:
                     machinery.append('no result from %s (rc=%s): %s %s' % (' '.join(cmd), pr.returncode, e, pr.stdout[-1500:])); continue
                 rs = dict(harness=d['harness'], mode=d['mode'], bound=d['bound'], configs=len(d['configs']), executions=0, states=0, transitions=0, wall_s=d['wall_s'], complete=d['all_complete'], config_range=cr)
+                # iterative bounding: what every program of this run finished completely, even when the requested bound was cut by the time or memory budget
+                rs['bound_completed_by_every_program'] = {k: min([c['bound_completed'][k] for c in d['configs']] or [-1]) for k in ('P', 'D', 'E')}
+                rs['programs_cut_by_budget'] = [c['config'] for c in d['configs'] if not c['complete'] and not c['violations']]
                 for c in d['configs']:
                     for k in ('states', 'transitions', 'executions', 'pruned', 'choice_points', 'unscoped_races'):
                         tot[k] += c.get(k, 0)
